@@ -627,6 +627,10 @@ func (e *executor) wordList(a opArgs) (*spg.WordList, error, func() string) {
 	if a["words"] == "nil" {
 		return nil, nil, func() string { return "" }
 	}
+	if a["words"] == "@zero" {
+		// the zero value of the exported type: a word list nobody has set up
+		return &spg.WordList{}, nil, func() string { return "" }
+	}
 	words := wordsArg(a)
 	if id, ok := a["wlobj"]; ok {
 		if wl, ok := e.lists[id]; ok {
